@@ -49,8 +49,11 @@ def _digests(cid, seed, n, hashseed, workers):
         "m.zygote_init()\n"
         "from bcsim import engine\n"
         f"chk = m.load_check('{cid}')\n"
-        f"items=[({seed}, i) for i in range({n})]\n"
-        "res = engine.pool_map(chk.run_one, items, wall_cap=3000)\n"
+        f"items=[({seed}, i) if chk.PROP == 'C10' else ({seed}, i, 'quick') for i in range({n})]\n"
+        "from bcsim import node\n"
+        "res = engine.pool_map(chk.run_one, items, wall_cap=3000, fini=node.close_nodes)\n"
+        "bad = [r for i, r in res if '__harness_error__' in r]\n"
+        "assert not bad, bad[0]\n"
         "print(json.dumps([[i, r.get('digest'), r.get('plan_digest'), len(r.get('findings', []))] for i, r in res]))\n"
     )
     p = subprocess.run([sys.executable, "-c", code], cwd=VERIF, env=env, capture_output=True, text=True, timeout=3600)
